@@ -21,7 +21,16 @@
 //     products); impl prints placement area and bin limits, the driver recomputes them from the circuit
 //     (shared Freespace model -> clipRows -> gridRegions -> computeSubdivisions).  Direct oracle: every
 //     bin limit inside the rows' bounding box.
-// (b) direct oracle on Circuit::placeGlobal(params, callback), one forked child per case:
+// (b) direct oracle on Circuit::placeGlobal(params, callback), one forked child per case (cases are
+//     spread over up to 16 worker processes; each case is seeded by (seed, k) alone).  Parameters: every
+//     knob over the range the parameter check accepts, except the numeric box of the statement (see
+//     genC06Params): in particular penalty.updateFactor over (1,2) together with the default 400 steps,
+//     both stop tolerances down to 0, both distance update factors over [0.8,1.2].  Circuits: no net,
+//     degree-1 nets only, all pins of a net on one cell, fixed pins only, and generic nets (addNets).
+//     Failures are classified against two known findings (driftAfter / hasFloatingComponent); whatever
+//     the classifiers do not cover is a violation.  e2e_digest.txt (one line per case: status, loop
+//     steps, zero-wirelength flag, hash of every exposed and returned coordinate) lets two library
+//     builds be compared bit for bit.
 //     * at every UpperBound callback each movable cell's exposed centre x + placedWidth/2 lies in
 //       the rows' bounding box enlarged by 1/2 (the exposed x is round(ub - w/2), so the exposed
 //       centre differs from the float centre by at most 1/2: one rounding, derived not tuned);
@@ -570,8 +579,9 @@ static volatile long long *sharedProgress() {
 
 // runs in the forked child; writes "F <what>" per failure and one "S ..." statistics line
 static void runPlacement(Case &cs, std::ostream &os) {
-  // the library reports progress on stdout: kept in an unnamed temporary file, read back below only
-  // for the measured distribution (steps run, zero wirelength) — never for a verdict
+  // the library reports progress on stdout: kept in an unnamed temporary file, read back below for
+  // the measured distribution (steps run, zero wirelength) and for the known-finding classifier (a
+  // zero-wirelength run is never attributed to KF-C06-1) — never to accept a run
   int logFd = open("/tmp", O_TMPFILE | O_RDWR, 0600);
   if (logFd < 0) logFd = open("/dev/null", O_WRONLY);
   if (logFd >= 0) dup2(logFd, 1);
@@ -898,9 +908,12 @@ int main(int argc, char **argv) {
   vh::Out out(a.out);
   out.rule = "(a) spreadCoordX/Y on generated grids/views/bin assignments (exact: power-of-two bin demand, rationals must be equal; "
              "approx: |float - rat| <= 2^-18(|lo|+|hi|+1)); non-trivial = a bin with >= 2 cells, distinct by op text. "
-             "(b) Circuit::placeGlobal with callback on vc::genCircuit circuits whose rows are all >= 4 row heights wide, parameters "
-             "over all efforts/net models/cost models/window sizes/blendings, numerical knobs in the C06 box; non-trivial = at least "
-             "two UB callbacks and last LB != last UB for some movable cell; distinct by circuit+parameter text";
+             "(b) Circuit::placeGlobal with callback on vc::genCircuit circuits whose rows are all >= 4 row heights wide (nets: generic / none / "
+             "degree 1 / one cell per net / fixed cells only), parameters over all efforts/net models/cost models/window sizes/blendings, "
+             "penalty.updateFactor over (1,2) with step limits up to the default 400, stop tolerances down to 0, distance update factors "
+             "over [0.8,1.2], numerical knobs in the C06 box; non-trivial = at least two UB callbacks and last LB != last UB for some "
+             "movable cell; distinct by circuit+parameter text; measured: e2e_zero_wirelength, e2e_stopped_at_first_step, "
+             "e2e_ran_to_step_limit, e2e_penalty_would_overflow_at_step_limit, e2e_failures_*";
   // replay: only the named case
   long long only = a.only;
   std::string onlyKind;
